@@ -12,9 +12,9 @@ import (
 
 // Flow is the go/cfg view of one function, with the engine E1 queries on it.
 type Flow struct {
-	F     *Func
-	G     *cfg.CFG
-	conds map[ast.Node]*CondInfo // last node of a 2-successor block → what it is
+	F      *Func
+	G      *cfg.CFG
+	conds  map[ast.Node]*CondInfo // last node of a 2-successor block → what it is
 	defmap map[types.Object][]ast.Expr
 	marks  map[ast.Node]*ast.BranchStmt
 }
@@ -405,8 +405,10 @@ func CallEvent(pred func(call *ast.CallExpr) bool) Event {
 
 // IsErrorReturn reports whether a return statement certainly returns a
 // non-nil error as its last result, by the repository's idioms:
-//   return …, fmt.Errorf(…) / errors.New(…) / a package-level error variable /
-//   &T{…} / T{…}; `return …, err` directly inside `if err != nil {`.
+//
+//	return …, fmt.Errorf(…) / errors.New(…) / a package-level error variable /
+//	&T{…} / T{…}; `return …, err` directly inside `if err != nil {`.
+//
 // Anything else (literal nil, a tail call, a variable of unknown state) is
 // treated as a possible success exit.
 func (fl *Flow) IsErrorReturn(r *ast.ReturnStmt) bool {
